@@ -74,6 +74,14 @@ ASSUMPTIONS = [
     "the second derivative of the two outermost functions is corrected, which is not enough for a quintic: error 2e-2 "
     "at level 4), for p = 1 on weighted/relabelled trees (error 0.8) or with a single interior point; zero-boundary "
     "bases reproduce no polynomial by construction",
+    "'arbitrary vector-valued functions': a quarter of the round-trip / interpolate_grid cases pass a user-defined "
+    "Function subclass whose eval() returns the nodal values as python int / bool (scalar for output length 1, tuple "
+    "otherwise), numpy int32/int64 arrays, float32 arrays, python lists of ints, or a mixture of ints and floats (values "
+    "exactly representable in that type; small integers have non-integer surpluses); Function.__call__ accepts all of "
+    "them (np.array(f_value)), so all clauses are demanded with the float64 reference; a violation that disappears "
+    "when the same values are returned as python floats gets the suffix /only-for-non-float-function-values",
+    "the integral returned by integrate() is compared with reference surpluses (numpy solve) times the grid's stored "
+    "basis integrals, which are themselves compared with numerical quadrature of the basis values",
     "basis objects are constructed the way the grids and the repository's tests construct them: strictly increasing "
     "knots, LagrangeBasis* with len(knots) <= p+1, LagrangeBasisRestrictedModified with knots that include both domain "
     "ends and index 1..n (test_BasisFunctions), not-a-knot B-splines with the knot formula of BSplineGrid1D / "
@@ -318,7 +326,7 @@ def compare_nodal(out, sig, got, want, tol, scale, message):
     if got.size == 0:
         return 0.0
     err = float(np.max(np.abs(got - want))) if np.all(np.isfinite(got)) else float("inf")
-    rel = err / scale
+    rel = err / scale if scale > 0 else (0.0 if err == 0 else float("inf"))      # an all-zero table has scale 0
     if not rel <= tol:
         j = int(np.argmax(np.abs(got - want).reshape(-1))) if math.isfinite(err) else 0
         out.bad(sig, "%s: max deviation %.3g (relative %.3g, tolerance %.3g); entry %d: got %r expected %r"
@@ -720,13 +728,73 @@ def random_points(cx, rng, m):
     return [tuple(float(c) for c in row) for row in pts]
 
 
-def make_table(cx, rng, nout, vscale):
+VALUE_TYPES = ("float", "int", "bool", "int-array", "float32", "list", "mixed")
+
+
+def make_typed_table(cx, rng, nout, vscale, vtype):
+    """-> (V float64 reference (nout, n_1..n_dim), table point -> python list of exactly representable values).
+    The values are drawn so that they are exact in the type the user function returns them in: small integers (their
+    surpluses are non-integer as soon as one level-1 point exists: v_mid - (v_a + v_b)/2), 0/1, float32 numbers."""
     import numpy as np
-    V = rng.normal(size=[nout] + cx.shape) * vscale
+    shape = [nout] + cx.shape
+    if vtype in ("int", "int-array", "list"):
+        V = rng.integers(-9, 10, size=shape).astype(float)
+    elif vtype == "bool":
+        V = rng.integers(0, 2, size=shape).astype(float)
+    elif vtype == "float32":
+        V = (rng.normal(size=shape) * vscale).astype(np.float32).astype(float)
+    elif vtype == "mixed":
+        V = rng.normal(size=shape) * vscale
+        Vi = rng.integers(-9, 10, size=shape).astype(float)
+        # integers in the first component and at every point with an even index sum; floats elsewhere
+        mask = np.zeros(shape, dtype=bool)
+        mask[0] = True
+        for idx in np.ndindex(*cx.shape):
+            if sum(idx) % 2 == 0:
+                mask[(slice(None),) + idx] = True
+        V = np.where(mask, Vi, V)
+    else:
+        V = rng.normal(size=shape) * vscale
     table = {}
     for idx in np.ndindex(*cx.shape):
         table[tuple(cx.xs[d][idx[d]] for d in range(cx.dim))] = [float(V[(o,) + idx]) for o in range(nout)]
     return V, table
+
+
+def typed_function(table, nout, vtype):
+    """a user-defined Function subclass whose eval() returns the nodal values in the given python / numpy type"""
+    import numpy as np
+    from sparseSpACE.Function import Function
+
+    def conv(vals):
+        if vtype == "int":
+            r = [int(v) for v in vals]
+            return r[0] if nout == 1 else tuple(r)
+        if vtype == "bool":
+            r = [bool(v) for v in vals]
+            return r[0] if nout == 1 else tuple(r)
+        if vtype == "int-array":
+            return np.array([int(v) for v in vals], dtype=np.int64 if nout % 2 else np.int32)
+        if vtype == "float32":
+            return np.array(vals, dtype=np.float32)
+        if vtype == "list":
+            return [int(v) for v in vals]
+        if vtype == "mixed":
+            r = [int(v) if float(v).is_integer() else float(v) for v in vals]
+            return r[0] if nout == 1 else r
+        return [float(v) for v in vals]
+
+    class NodalTable(Function):
+        def __init__(self):
+            super().__init__()
+
+        def output_length(self):
+            return nout
+
+        def eval(self, coordinates):
+            return conv(table[tuple(float(c) for c in coordinates)])
+
+    return NodalTable()
 
 
 def grid_points(cx):
@@ -748,19 +816,41 @@ def run_roundtrip(case, sub):
     out.cls("output-length=%d" % nout)
     direct_op = {}
 
-    def one_round(out, cx):
+    vtype = case.get("vtype", "float")
+    out.cls("value-dtype=" + vtype)
+
+    def one_round(out, cx, force_float=False):
         """all clauses for the configuration the grid object is set up for; True = fully checked (not skipped).
         Every random choice of a round comes from a generator seeded with (case rng, round number), so the re-run of a
-        round on a fresh grid object (drive_rounds) repeats exactly the same clauses on exactly the same data."""
+        round on a fresh grid object (drive_rounds) repeats exactly the same clauses on exactly the same data.
+        A violation seen with a non-float valued function is re-checked with the same values returned as python
+        floats: if that passes, the signature names the value type as the cause."""
+        before = len(out.violations)
+        ok = _one_round(out, cx, force_float)
+        if vtype != "float" and not force_float and len(out.violations) > before:
+            scratch = Outcome()
+            _one_round(scratch, cx, True)
+            if not scratch.violations:
+                tail = out.violations[before:]
+                del out.violations[before:]
+                for sig, msg in tail:
+                    out.bad(sig + "/only-for-non-float-function-values",
+                            "(function values returned as %s; the same values returned as python floats pass) %s" % (vtype, msg))
+        return ok
+
+    def _one_round(out, cx, force_float):
         rng = np.random.default_rng([int(case["rng"]), int(cx.round)])
         common_classes(out, cx)
         N = int(math.prod(cx.shape))
         if N == 0:
             out.cls("empty-grid")
             return False
-        V, table = make_table(cx, rng, nout, vscale)           # a new nodal table in every round
-        f = FunctionCustom(_Table(table), output_dim=nout)
-        cx.integrate(f)
+        V, table = make_typed_table(cx, rng, nout, vscale, vtype)           # a new nodal table in every round
+        if vtype == "float" and not force_float:
+            f = FunctionCustom(_Table(table), output_dim=nout)
+        else:
+            f = typed_function(table, nout, "float" if force_float else vtype)
+        integral = cx.integrate(f)
         res = collocation_clauses(out, sub, cx)
         if res is None:
             return False
@@ -800,6 +890,16 @@ def run_roundtrip(case, sub):
         rel = compare_nodal(out, "%s/surpluses/%s-%s" % (sub, cx.family, cx.mode), S_t, S_ref, tol, smax,
                             "%s: surpluses vs numpy solve of the collocation systems, cond %.2e" % (cx.describe(), cond))
         info_max(out, "surplus_err_over_tol", rel / tol)
+        # (e) the returned integral is the reference surpluses times the stored basis integrals (which weight_clause
+        # compares with numerical quadrature of the basis functions)
+        W = [np.array(cx.weights(d), dtype=float) for d in range(cx.dim)]
+        ref_int, abs_int = S_ref, np.abs(S_ref)
+        for d in range(cx.dim):
+            ref_int = np.tensordot(ref_int, W[d], axes=(1, 0))
+            abs_int = np.tensordot(abs_int, np.abs(W[d]), axes=(1, 0))
+        compare_nodal(out, "%s/integral/%s-%s" % (sub, cx.family, cx.mode), np.asarray(integral, dtype=float).reshape(-1),
+                      ref_int.reshape(-1), tol, float(np.max(abs_int)) + 1e-300,
+                      "%s: integrate() return value vs reference surpluses times stored basis integrals" % cx.describe())
         # (d) the hierarchisation operator called directly (observe_at of the property) gives the same surpluses; one
         # operator object per grid object, kept over the rounds
         if id(cx) not in direct_op:
@@ -918,8 +1018,10 @@ def run_interpolate_grid(case):
     if N == 0:
         out.cls("empty-grid")
         return out
-    V, table = make_table(cx, rng, nout, 1.0)
-    f = FunctionCustom(_Table(table), output_dim=nout)
+    vtype = case.get("vtype", "float")
+    out.cls("value-dtype=" + vtype)
+    V, table = make_typed_table(cx, rng, nout, 1.0, vtype)
+    f = FunctionCustom(_Table(table), output_dim=nout) if vtype == "float" else typed_function(table, nout, vtype)
     cx.integrate(f)
     res = collocation_clauses(out, sub, cx)
     if res is None:
@@ -1352,6 +1454,7 @@ def _local_case(draw, tier, poly=False, maxdim=3):
     if not poly:
         case["out"] = draw(st.sampled_from([1, 2, 3]))
         case["vscale"] = draw(st.sampled_from([1.0, 1.0, 1e3, 1e-3]))
+        case["vtype"] = draw(st.sampled_from(["float"] * 9 + list(VALUE_TYPES[1:])))
     return case
 
 
@@ -1418,6 +1521,7 @@ def _global_case(draw, tier, poly=False, maxdim=3):
     if not poly:
         case["out"] = draw(st.sampled_from([1, 2, 3]))
         case["vscale"] = draw(st.sampled_from([1.0, 1.0, 1e3, 1e-3]))
+        case["vtype"] = draw(st.sampled_from(["float"] * 9 + list(VALUE_TYPES[1:])))
     return case
 
 
@@ -1525,6 +1629,11 @@ def roundtrip_fixed():
                         out=1, vscale=1.0, rng=4,
                         seq=[dict(kind="refine", splits=[[[2, 0.5]], [[1, 0.5], [5, 0.5]]]), dict(kind="relabel", rng=2),
                              dict(kind="back")]))
+    # function values of other types than float (user-defined Function subclass), one case per type
+    for k, vt in enumerate(VALUE_TYPES[1:]):
+        res.append(dict(kind="global", family=("lagrange", "bspline")[k % 2], p=3, mode="boundary", a=[0.0, -1.0],
+                        len=[1.0, 3.0], trees=[complete_splits(2), [[0, 0.5], [0, 0.3], [2, 0.5]]], max_level=11,
+                        out=1 + k % 3, vscale=1.0, vtype=vt, rng=10 + k))
     return res
 
 
@@ -1535,6 +1644,9 @@ def local_fixed():
                         paths=[[], [1, 0]], lv=[2, 3], out=2, vscale=1.0, rng=2))
     res.append(dict(kind="local", family="bspline", p=3, mode="noboundary", a=[0.0, 0.0], len=[1.0, 1.0],
                     paths=[[], []], lv=[4, 2], out=3, vscale=1.0, rng=3))
+    for k, vt in enumerate(VALUE_TYPES[1:]):
+        res.append(dict(kind="local", family=("bspline", "lagrange")[k % 2], p=3 - k % 2, mode="boundary", a=[-1.0, 0.0],
+                        len=[3.0, 1.0], paths=[[1], []], lv=[2, 1], out=1 + (k + 1) % 3, vscale=1.0, vtype=vt, rng=20 + k))
     return res
 
 
